@@ -86,18 +86,7 @@ func (r *runner) failed() bool { return r.stop() || r.desync }
 // RunScenario executes one scenario inside its own synctest bubble.
 func RunScenario(t *testing.T, sc *Scenario) *Result {
 	res := &Result{Stats: map[string]int{}, Triggers: map[string]int{}, States: map[string]bool{}, Blocks: map[string]bool{}, Streams: map[string][]*streamItem{}, Sent: map[int][]byte{}, InS0: map[int]bool{}, RIDs: map[int]uint32{}}
-	defer func() {
-		// the end-of-bubble deadlock panic (a goroutine that could not be killed)
-		if p := recover(); p != nil {
-			s := fmt.Sprint(p)
-			if strings.Contains(s, "deadlock") || strings.Contains(s, "blocked goroutines") {
-				res.Stats["bubble_leak"]++
-				return
-			}
-			panic(p)
-		}
-	}()
-	synctest.Test(t, func(t *testing.T) {
+	inBubble(t, res, func(t *testing.T) {
 		w := NewWorld(sc.World)
 		r := &runner{sc: sc, w: w, m: NewModel(sc.World.Modules), clients: map[int]*Client{}, res: res, dis: disabledTypes(sc.World.Flags), inappAt: map[int]int{}}
 		r.run()
@@ -150,17 +139,7 @@ func RunScenario(t *testing.T, sc *Scenario) *Result {
 // by seed (the generator is a pure function of it).
 func runCustom(t *testing.T, sc *Scenario, body func(r *runner)) *Result {
 	res := &Result{Stats: map[string]int{}, Triggers: map[string]int{}, States: map[string]bool{}, Blocks: map[string]bool{}, Streams: map[string][]*streamItem{}, Sent: map[int][]byte{}, InS0: map[int]bool{}, RIDs: map[int]uint32{}}
-	defer func() {
-		if p := recover(); p != nil {
-			s := fmt.Sprint(p)
-			if strings.Contains(s, "deadlock") || strings.Contains(s, "blocked goroutines") {
-				res.Stats["bubble_leak"]++
-				return
-			}
-			panic(p)
-		}
-	}()
-	synctest.Test(t, func(t *testing.T) {
+	inBubble(t, res, func(t *testing.T) {
 		w := NewWorld(sc.World)
 		r := &runner{sc: sc, w: w, m: NewModel(sc.World.Modules), clients: map[int]*Client{}, res: res, dis: disabledTypes(sc.World.Flags), inappAt: map[int]int{}}
 		body(r)
@@ -175,6 +154,33 @@ func runCustom(t *testing.T, sc *Scenario, body func(r *runner)) *Result {
 		w.Close()
 	})
 	return res
+}
+
+// inBubble runs f as the root of a synctest bubble, on a goroutine of its own: when the race
+// detector has reported something during the bubble, testing makes the goroutine that called
+// synctest.Test exit (as if FailNow had been called), which must not end the worker's loop. The
+// end-of-bubble deadlock panic (a goroutine that could not be killed) is recovered here.
+func inBubble(t *testing.T, res *Result, f func(t *testing.T)) {
+	done := make(chan struct{})
+	var pv any
+	go func() {
+		defer close(done)
+		defer func() {
+			if p := recover(); p != nil {
+				s := fmt.Sprint(p)
+				if strings.Contains(s, "deadlock") || strings.Contains(s, "blocked goroutines") {
+					res.Stats["bubble_leak"]++
+					return
+				}
+				pv = p
+			}
+		}()
+		synctest.Test(t, f)
+	}()
+	<-done
+	if pv != nil {
+		panic(pv)
+	}
 }
 
 func mergeStats(a, b map[string]int) map[string]int {
